@@ -402,6 +402,20 @@ func (c15World) Run(prop string, ch *zsim.Choices, trace bool) *RunResult {
 			lg := zerolog.New(c15Tap{r, w}).Level(zerolog.Level(-128))
 			// at most ~24 ops per instance keep the linearizability check tractable
 			per := 1 + ch.Intn(24/nTasks)
+			if inst == 0 && nTasks >= 2 && int8(r.cond) < int8(r.trig) && r.cond != 10 && ch.Chance(1, 1500) {
+				// a long history first: thousands of lines are held (written one after the other)
+				// before the writers start to trigger, write and close concurrently
+				zsim.Probe("thousands_of_held_lines")
+				nHeld := 4090 + ch.Intn(20)
+				for i := 0; i < nHeld; i++ {
+					r.nLine++
+					line := fmt.Sprintf("h%d\n", r.nLine)
+					if r.lineSeq != nil {
+						r.lineSeq[line] = r.nLine
+					}
+					r.doOp(w, &lg, inst, tIn{Kind: 0, Level: int8(r.cond), Line: line}, false)
+				}
+			}
 			var ts []*zsim.Task
 			for t := 0; t < nTasks; t++ {
 				inst := inst
@@ -446,7 +460,7 @@ func (c15World) Run(prop string, ch *zsim.Choices, trace bool) *RunResult {
 			r.doOp(w, &lg, inst, tIn{Kind: 2}, false)
 		}
 	}
-	s := zsim.Run(zsim.Config{MaxSteps: 200000, Trace: trace}, ch, main)
+	s := zsim.Run(zsim.Config{MaxSteps: 500000, Trace: trace}, ch, main)
 	return finish(s, ch, summary, func() *zsim.Violation {
 		if s.Stuck {
 			return viol("C15.blocked", "writers cannot finish: %s", s.StuckInfo)
